@@ -125,7 +125,22 @@ def _parser(pkg, cls, meth="_parse_string"):
     cache = pkg.__dict__.setdefault("_c06_parsers", {})
     if (cls, meth) in cache:
         return cache[(cls, meth)]
-    fn = _select_setattr(pkg.folded(cls, meth, keep=KEEP))
+    fn = pkg.folded(cls, meth, keep=KEEP)
+    # a helper OBJECT that lives and dies inside the parser (`bound = _Limit(text)` .. `bound.is_given` .. `float(bound)`, a small class
+    # of the same module) is the bundle of its fields: constructor, properties and methods put back (normalize.inline_local_objects),
+    # then the same folding as pymodel.folded
+    try:
+        from ..normalize import inline_local_objects, fold_static, namedtuple_tables
+        owner = pkg.resolve(cls, meth)[0] or cls
+        file_ = pkg.cls(owner).file
+        fn0 = pkg.expanded(owner, meth, KEEP)
+        if any(isinstance(c, ast.Call) and isinstance(c.func, ast.Name) and c.func.id in pkg.classes and pkg.classes[c.func.id].file == file_ for c in ast.walk(fn0)):
+            fn1 = inline_local_objects(fn0, lambda c: pkg.classes[c].node if c in pkg.classes and pkg.classes[c].file == file_ and c not in pkg.mro(cls) and not pkg.subclasses(c) else None)
+            if fn1 is not fn0:
+                fn = fold_static(pkg.with_class_constants(cls, pkg.with_module_constants(file_, copy.deepcopy(fn1))), namedtuple_tables(pkg.modules[file_]))
+    except RecursionError:
+        pass
+    fn = _select_setattr(fn)
     # a local bound ONCE, to a constant (the parameter of a helper that was put back: `attribute = "temp_min"`), is that constant
     # where it is read; setattr / getattr on it are then plain attribute accesses (fold_static)
     stores = {}
